@@ -40,6 +40,7 @@ clean-up, and the monitor writes the aborted flag before it moves the running
 link.
 Sweep: C13.1 a container is started xor handed to clean-up; C13.2 the hand-over and the link resolution tolerate exactly ENOENT; C13.5 the marker and dot tests take the early exit on their positive outcome, a not-ignored event reaches _configure / _terminate, the cache watcher is wired to the three handlers and its queue is processed when the wait reports events; C13.6 _configure answers success only after the running link exists and removes the cache entry before it answers failure.
 Fifth round: C13.1 neither gen_uniqueid nor eventfile_unique_name carries a memoising decorator (the same path names another generation after an eviction).
+Sixth round: C13.6 only the owner modules write running / cleanup links (whole-package clause, now part of every run).
 Does NOT decide interleavings of events with clean-up completion.
 """
 
